@@ -48,6 +48,8 @@ MCNext ==
     \/ "send" \in Ops /\ \E ty \in SendTy, d \in Names \cup {<<>>} \cup {uname[x] : x \in Slot}, ser \in SendSer, rs \in SendRs, fl \in SendFl :
            /\ (d # <<>> \/ ty = 4)
            /\ Send(s, TestMsg(ty, d, ser, IF ty \in {2,3} THEN rs ELSE 0, fl), <<>>)
+    \/ "full" \in Ops /\ \E ty \in SendTy, d \in Names \cup {uname[x] : x \in Slot}, ser \in SendSer, rs \in SendRs, fl \in SendFl :
+           SendFull(s, TestMsg(ty, d, ser, IF ty \in {2,3} THEN rs ELSE 0, fl), <<>>)      \* the recipient is not reading
     \/ "close" \in Ops /\ ClientClose(s)
     \/ "hostile" \in Ops /\ Corrupt(s)          \* any byte string that is not a valid message
     \/ "act" \in Ops /\ \E n \in Names : StartService(s, 2, 0, n, 0)
@@ -136,7 +138,13 @@ UniqueNeverReused == [][\A s \in Slot : uname'[s] # uname[s] /\ uname'[s] # <<>>
 RefusalChangesNothing ==
   \* (a held message released when its service appears may be refused on its own; that is not the acting request)
   [][((\E i \in 1..Len(out') : out'[i].m.err = E_LimitsExceeded) /\ act'.pend = act.pend)
-       => queue' = queue /\ rules' = rules /\ cst' = cst /\ pend' = pend /\ act' = act]_vars
+       \* (a refused message that was itself an awaited reply still uses up the expectation it answers)
+       => queue' = queue /\ rules' = rules /\ cst' = cst /\ act' = act
+          /\ (pend' = pend \/ \E k \in 1..Len(pend) : pend' = RemoveAt(pend, k))]_vars
+\* a message refused with LimitsExceeded (reply table or recipient queue full) never leaves a new reply expectation
+RefusedCallLeavesNoSlot ==
+  [][(\E i \in 1..Len(out') : out'[i].m.err = E_LimitsExceeded /\ out'[i].m.org = 0 /\ act'.pend = act.pend)
+       => Len(pend') <= Len(pend)]_vars
 \* ---- C10: what a misbehaving client can cause
 \* the step in which the bus gives up on a connection (invalid bytes, a monitor or unregistered client speaking)
 \* changes nothing but that connection's fate; only monitors may be shown the offending (valid) message
